@@ -702,6 +702,34 @@ def model_ops(world, ops, schema_ids):
     return out
 
 
+def model_mem_ops(world, ops, schema_ids):
+    """the history AS WRITTEN for request 5 (Model/ValidatorMem.v): buffers by number, loads carry the wire,
+    hand-overs name the buffer; a wire given directly (no buffer of the history) gets a buffer of its own"""
+    ids, out = {}, []
+
+    def bid(b):
+        return ids.setdefault(b, len(ids))
+
+    def direct(pid):
+        out.append([10, bid(('direct', len(out))), [1, pid]])
+        return len(ids) - 1
+    for op in ops:
+        if op[0] == 'storage':
+            out.append([0])
+        elif op[0] == 'load':
+            out.append([10, bid(op[1]), [1, op[2]]])
+        elif op[0] == 'scribble':
+            out.append([11, bid(op[1])])
+        elif op[0] in ('lvs', 'cascade'):
+            anchor, sarg = op[-2], op[-1]
+            b = bid(anchor[1]) if isinstance(anchor, tuple) else direct(anchor)
+            sa = [] if sarg is None else [2 + sarg]
+            out.append([1, schema_ids.index(op[1]), b, sa] if op[0] == 'lvs' else [2, b, sa])
+        else:
+            out.append([3, op[1], bid(op[2][1]) if isinstance(op[2], tuple) else direct(op[2])])
+    return out
+
+
 def norm_model_obs(m):
     """model observation -> same shape as run_impl's"""
     out = []
@@ -759,6 +787,14 @@ def check_history(ctx, env, world, ops, tag, legacy=False, forms=None):
         ctx.disagree('history', 'model rejected the request', case, m, impl)
         return impl
     mo = norm_model_obs(m)
+    if len(full_ops) != len(ops):
+        # the history as written, memory operations included, on the model of the caller's memory (request 5): it
+        # must be the history of the calls (theorem C14_memory_history_is_call_history, here on the extracted code)
+        mm = ctx.call([5, 1 if legacy else 0, FUEL, W, S, model_mem_ops(world, full_ops, schema_ids)])
+        ctx.stat('caller-memory:written-history-on-the-memory-model')
+        if is_err(mm) or norm_model_obs([x[0] for x in mm if x]) != mo:
+            ctx.disagree('caller-memory', 'the model of the history with buffers differs from the model of the calls',
+                         case, mm, mo)
     if len(mo) != len(impl) or not all(same_obs(a, b) for a, b in zip(mo, impl)):
         k = next((i for i, (a, b) in enumerate(zip(mo, impl)) if not same_obs(a, b)), None)
         site = 'history'
